@@ -52,7 +52,11 @@ def run(facts, rep):
             if re.search(r'\(\*_1\)\.key_map\)*$', r.lstrip('&')) or re.search(r'deref_mut\(&\(\*_1\)\.key_map\)', r):
                 n += 1
                 inst = '%s|%s on key_map' % (k, m)
-                if root in (B + 'add_key_pair', B + 'remove_key_pair'):
+                rc_ = facts.rev_callgraph()
+                helpers_ = {B + 'add_key_pair', B + 'remove_key_pair'}
+                rb_ = facts.bodies.get(root)
+                step_ = rb_ is not None and rb_.d.get('vis', 'pub') != 'pub' and rc_.get(root) and all((facts.bodies[c_].d.get('root') or c_) in helpers_ for c_ in rc_.get(root, ()) if c_ in facts.bodies)
+                if root in helpers_ or step_:
                     rep.ok('E7b.K1-key-map-writers', inst, 'inside the pair helper')
                 else:
                     rep.violation('E7b.K1-key-map-writers', inst, '%s %ss a single entry of key_map outside add_key_pair / remove_key_pair: tau may stop being an involution' % (k, m),
@@ -468,10 +472,13 @@ def check_inv_link(facts, rep):
         else:
             ok_a = ok_a and list(ins) == [(X, y)]
     inst = 'InvLink::new|x -> y and, unless x = y, y -> x'
+    rec_a = bool(shapes) and all(ins and all(len(pr) == 2 for pr in ins) and all(re.match(r'^(clone\()?(next\(IT\)\.Some\.0|call\(.*\)|index\(.*\)|get\(.*\)|unwrap\(.*\))\)?$', x) or 'next(IT)' in x for pr in ins for x in pr) for ins, ne in shapes)
     if ok_a:
         rep.ok('E7b.K8-inv-link', inst, 'both directions recorded')
     elif not shapes:
         rep.indet('E7b.K8: no x_map insertion found in InvLink::new')
+    elif not any(len(ins) == 1 and ins[0][0] == X and (not ne or ne[0][1]) for ins, ne in shapes):
+        rep.indet('E7b.K8: x_map insertions of InvLink::new outside the recognised fragment: %s' % sorted(shapes, key=str)[:2])
     else:
         rep.violation('E7b.K8-inv-link', inst, 'InvLink::new records %s: the crossing involution must contain y -> x whenever it contains x -> y' % sorted(shapes, key=str)[:2], where=nb.where())
     # (b)
